@@ -5,7 +5,18 @@ import os
 HERE = os.path.dirname(os.path.dirname(os.path.abspath(__file__)))
 
 CLAIMED = {
-    "C07": dict(
+    "C06": dict(
+        level="exploration", design="DESIGN.md 3/C06",
+        text=("Every element-helper call (with_/update_/transform_/without_<singular>) of a seeded history over generated classes "
+              "with List/Dict/Set of ints, List/Dict of (keyed) spec items, KeyedList and KeyedSet attributes is executed on the real "
+              "instance and on a plain-container reference model written from the documentation: append / replace / insert at index "
+              "(negative, 0, len, out of range), index-unless-element-type defaulting and _by_index overrides, first-of-equal-values, "
+              "falsy elements and keys, key promotion, keyword construction / update of spec elements, item preparers, container "
+              "creation when missing, missing targets raising IndexError / KeyError / ValueError, unknown keywords raising TypeError. "
+              "Result content and order must equal the model's; in the in-place variant untouched spec elements keep their identity."),
+        note="Trusted: models.ElementModel (calls whose outcome the documentation does not determine are counted as unmodelled and only executed).",
+        technique="deterministic simulation: seeded operation histories vs executable plain-container reference model",
+    ),    "C07": dict(
         level="exploration", design="DESIGN.md 3/C07",
         text=("Twin histories: every generated class spec is materialised twice, with one class frozen (host and thereby its spec / "
               "plain subclass, or the nested Leaf / KItem class) and without; the same seeded operations (assignment, deletion, every "
